@@ -7,13 +7,14 @@ class DeferredCycle(Exception):
 
 
 def wait(deferred):
-    seen = set()
+    seen = {}
     while isinstance(deferred, BaseDeferred):
         # 'a = a' or 'a = b' / 'b = a' settle on each other: that is a cycle
-        # too, although no wait() call is ever nested inside another one
+        # too, although no wait() call is ever nested inside another one.
+        # (The objects are kept alive in 'seen' so that ids are not reused.)
         if id(deferred) in seen:
             raise DeferredCycle()
-        seen.add(id(deferred))
+        seen[id(deferred)] = deferred
         deferred = deferred.wait()
     return deferred
 
